@@ -210,6 +210,11 @@ func (c *connection) onProcess(onConnect OnConnect, onRequest OnRequest) (proces
 				}
 			}
 			c.unlock(connecting)
+			// the peer may have closed after the IsActive check above: the poller then failed to get the
+			// connecting lock and relies on us, so check again now that the lock is released
+			if !c.IsActive() {
+				c.onDisconnect()
+			}
 		}
 	START:
 		// The `onRequest` must be executed at least once if conn have any readable data,
